@@ -2,7 +2,7 @@
 # continuous-query service.  Semantic properties X01..X04 are written down in specs/lease/Lease.tla and CQSched.tla.
 # spec: specs/lease (Lease, LeaseGen, CQSched, CQSchedGen); harness: harness/meta/zz_verif_lease_test.go,
 # harness/continuous_querier/zz_verif_cq_test.go
-import json, re, threading
+import json, os, re, threading
 from vcheck import Infra, log
 
 M_PKG = "services/meta"
@@ -88,6 +88,12 @@ def model_checking(ctx, sd, res):
             leads[inv] = bool(r["violated"])
             if not r["violated"]:
                 raise Infra("lead %s is not violated on the model: CQSched.tla and its description disagree" % inv)
+        # the recorded finding on the model: parameters that are not GapFree leave holes between on-time passes
+        ctx.write_cfg(sd, "QK.cfg", "Spec", cq_consts(Is={6}, Es={8}, Fs={0}, Os={0}, Now0={80}, MaxNow=92), ["Lead_ParamGap"])
+        r = ctx.tlc_check(sd, "CQSched", "QK.cfg", workers=2, timeout=600, expect_ok=False)
+        if not r["violated"]:
+            raise Infra("known finding X01-cq-gap: the model with interval 3u / EVERY 4u leaves no hole")
+        leads["Lead_ParamGap(i=3u,e=4u)"] = True
         res["cq_leads_violated_on_model"] = leads
         if not q:
             for probe in ("Probe_Ran", "Probe_CatchUp", "Probe_Refused", "Probe_Takeover"):
@@ -206,9 +212,14 @@ def run(ctx):
         sdq = ctx2.spec_dir("lease")
         glq = 30
         gq = cq_consts(Nodes={1, 2}, MaxNow=400, MaxFaults=3, GenLen=glq, MaxJump=5)
+        if not ctx2.quick():
+            gq.update(Is={2, 4, 6}, Es={0, 2, 4, 8, 12}, Fs={0, 4, 8, 12}, Now0={80, 81})
         ctx2.write_cfg(sdq, "GQ.cfg", "GSpec", gq, extra="INVARIANT Emit")
         nq = ctx2.pick(150, 2000)
         qb = ctx2.tlc_generate(sdq, "CQSchedGen", "GQ.cfg", num=nq, depth=glq + 1)[:nq]
+        # the recorded finding is re-run every time (DESIGN 4.10): GROUP BY time(3u) RESAMPLE EVERY 4u skips buckets
+        kf = os.path.join(os.path.dirname(os.path.dirname(os.path.abspath(__file__))), "replays", "X01", "known-cq-gap-every-vs-interval.json")
+        qb.append(json.load(open(kf))["replay"]["behaviour"])
         recs, out, rc = cq_run(["TestVerifCQReplay", "TestVerifCQTimer"], {"behaviours": qb}, "cq", ctx2)
         for r in recs:
             if r.get("k") == "sample":
@@ -216,6 +227,8 @@ def run(ctx):
         r4, rc4 = split_records(recs, rc, "TestVerifCQReplay")
         d4 = ctx2.process(r4, out, rc4, "TestVerifCQReplay", lambda r: any(x.get("k") == "mismatch" for x in one_cq(r, "confirm-cq", ctx2)[0]))
         ctx2.cov["traces_validated_against_impl"] += d4.get("behaviours", 0)
+        if d4 and not ctx2.violations and not any(k[0]["id"] == "X01-cq-gap-every-vs-interval" for k in ctx2.known_hits):
+            raise Infra("the recorded finding X01-cq-gap-every-vs-interval did not reproduce: if it was repaired, remove it from known/X01.json and drop GapFree from X03_NoGap")
         extra.update({"cq_" + k: v for k, v in d4.items() if k not in ("k", "test")})
         if d4 and not ctx2.violations:
             for k in ("passes_executed", "catch_up_passes", "refused", "restarts", "manual", "failed_queries"):
